@@ -11,6 +11,7 @@ import (
 	"hash/fnv"
 	"math/rand"
 	"os"
+	"runtime/debug"
 	"sort"
 	"sync"
 	"time"
@@ -82,8 +83,18 @@ func Init(property string) *Ctx {
 	c.maxViolK = 5
 	c.res = Result{Property: property, Tier: c.Tier, Seed: c.Seed, Shard: c.Shard,
 		Extra: map[string]interface{}{}, Counters: map[string]int64{}, ViolationCounts: map[string]int64{}}
+	if property != "C11" { // C11 decides on process death itself
+		// a panic inside one job (a defect of the harness, or library code panicking where the harness does not expect
+		// it) must not take the violations other jobs found down with the process: the run is marked inconclusive
+		onJobPanic = func(i int, p interface{}, stack []byte) {
+			c.Count("jobs_ended_by_a_panic", 1)
+			c.Inconclusive(fmt.Sprintf("job %d ended by a panic: %v\n%s", i, p, Trunc(string(stack), 1500)))
+		}
+	}
 	return c
 }
+
+var onJobPanic func(i int, p interface{}, stack []byte)
 
 // Thorough reports whether the thorough tier was requested.
 func (c *Ctx) Thorough() bool { return c.Tier == "thorough" }
@@ -294,7 +305,16 @@ func Parallel(n, w int, fn func(i int)) {
 		go func() {
 			defer wg.Done()
 			for i := range ch {
-				fn(i)
+				func() {
+					if onJobPanic != nil {
+						defer func() {
+							if p := recover(); p != nil {
+								onJobPanic(i, p, debug.Stack())
+							}
+						}()
+					}
+					fn(i)
+				}()
 			}
 		}()
 	}
